@@ -1,7 +1,7 @@
 #!/usr/bin/env python3
-"""False-alarm probe: applies behaviour-preserving refactorings (produced by independent sub-agents under
-/tmp/seed/R*/k/patch.diff) to scratch worktrees of /repo HEAD and runs every check; any VIOLATION or
-CHECK-BROKEN is listed."""
+"""False-alarm probe: applies the property-preserving changes of the silent corpus (/verif/refactors/<id>/patch.diff:
+refactorings and property-neutral maintenance commits produced by independent sub-agents) to scratch worktrees of
+/repo HEAD and runs every check; any VIOLATION or CHECK-BROKEN is listed. Arguments filter by substring of <id>."""
 import json, os, re, shutil, subprocess, sys, glob
 from concurrent.futures import ThreadPoolExecutor
 
@@ -15,8 +15,7 @@ def sh(cmd, cwd=None):
     return p.returncode, p.stdout
 
 def probe(d):
-    tag, k = d.rstrip("/").split("/")[-2:]
-    sid = "%s-%s" % (tag, k)
+    sid = os.path.basename(d.rstrip("/"))
     wt = "/tmp/seedwt/" + sid
     sh("git -C /repo worktree remove --force %s" % wt)
     sh("git -C /repo worktree add --detach %s HEAD" % wt)
@@ -43,7 +42,7 @@ def probe(d):
         shutil.rmtree("/tmp/seedwt/%s.verif" % sid, ignore_errors=True)
 
 def main():
-    dirs = sorted(d for d in glob.glob("/tmp/seed/[RST]C*/[0-9]") if os.path.exists(os.path.join(d, "patch.diff")))
+    dirs = sorted(d for d in glob.glob("/verif/refactors/*") if os.path.exists(os.path.join(d, "patch.diff")))
     if len(sys.argv) > 1:
         dirs = [d for d in dirs if any(a in d for a in sys.argv[1:])]
     os.makedirs("/tmp/seedwt", exist_ok=True)
